@@ -182,7 +182,7 @@ Proof. vm_compute. repeat split; reflexivity. Qed.
 (* ------------------------------------------------------------------------------------------------------
    Added in build session 4 (statements re-stated from the proof files by harness tooling; each is closed by
    exact). *)
-From SplipyModel Require Import Proofs.CompositeShapes Gen.DiscSquare Proofs.DiscSquareTie Proofs.ThreePoint.
+From SplipyModel Require Import Proofs.CompositeShapes Gen.DiscSquare Proofs.DiscSquareTie Proofs.ThreePoint Model.Ellipse Proofs.EllipseProofs.
 Open Scope R_scope.
 Theorem C13_sphere_from_revolve_net :
   forall (prof seg : list (list R)) (M N : list R),
@@ -670,8 +670,8 @@ Theorem C13_ngon_ccw :
          (3 <= n)%nat ->
          0 < r ->
          forall i : nat,
-         ngon_x n r i * ngon_y n r (S i) - ngon_y n r i * ngon_x n r (S i) = r * r * sin (ngon_dt n) /\
-         0 < r * r * sin (ngon_dt n).
+         ngon_x n r i * ngon_y n r (S i) - ngon_y n r i * ngon_x n r (S i) = r * r * sin (ThreePoint.ngon_dt n) /\
+         0 < r * r * sin (ThreePoint.ngon_dt n).
 Proof. exact @ngon_ccw. Qed.
 Print Assumptions C13_ngon_ccw.
 
@@ -701,8 +701,9 @@ Theorem C13_ngon_placed :
          let Q := fun j : nat => place cp sp ct st centre [ngon_x n r j; ngon_y n r j; 0] in
          dot3 (sub3 (Q i) centre) (nrm cp sp ct st) = 0 /\
          dot3 (sub3 (Q i) centre) (sub3 (Q i) centre) = r * r /\
-         cross3 (sub3 (Q i) centre) (sub3 (Q (S i)) centre) = scal3 (r * r * sin (ngon_dt n)) (nrm cp sp ct st) /\
-         0 < r * r * sin (ngon_dt n) /\ Q 0%nat = add3 (scal3 r (rot cp sp ct st [1; 0; 0])) centre.
+         cross3 (sub3 (Q i) centre) (sub3 (Q (S i)) centre) =
+         scal3 (r * r * sin (ThreePoint.ngon_dt n)) (nrm cp sp ct st) /\
+         0 < r * r * sin (ThreePoint.ngon_dt n) /\ Q 0%nat = add3 (scal3 r (rot cp sp ct st [1; 0; 0])) centre.
 Proof. exact @ngon_placed. Qed.
 Print Assumptions C13_ngon_placed.
 
@@ -784,4 +785,191 @@ Theorem C13_cube_eval :
            (cube_net sx sy sz lx ly lz) = [lx + u * sx; ly + v * sy; lz + w' * sz].
 Proof. exact @cube_eval. Qed.
 Print Assumptions C13_cube_eval.
+
+Theorem C13_ellipse_axis_aligned :
+  forall (rtol atol r1 r2 e0 e1 e2 cp sp ct st : R) (ty : ctype) (c0 : Obj.obj R),
+         0 <= rtol ->
+         0 <= atol ->
+         unit_circle (sqrt 2) PI ty = Ok c0 ->
+         allclose rtol atol [e0; e1; e2] [0; 0; 0] = false ->
+         exists o : Obj.obj R,
+           ellipse_obj rtol atol (sqrt 2) PI r1 r2 [e0; e1; e2] [0; 0; 1] ty 1 0 cp sp ct st = Ok o /\
+           Obj.o_bases o = Obj.o_bases c0 /\
+           Obj.o_dim o = 3%nat /\
+           Obj.o_rat o = true /\
+           (forall i : nat,
+            (i < length (Obj.o_cps c0))%nat -> nth 3 (nth i (Obj.o_cps o) []) 0 = nth 2 (nth i (Obj.o_cps c0) []) 0) /\
+           (forall P : nat -> R,
+            blends ty (Obj.o_cps o) P ->
+            let W := P 3%nat in
+            P 2%nat = e2 * W /\
+            r2 * r2 * ((P 0%nat - e0 * W) * (P 0%nat - e0 * W)) + r1 * r1 * ((P 1%nat - e1 * W) * (P 1%nat - e1 * W)) =
+            r1 * r1 * (r2 * r2) * (W * W) /\
+            (W <> 0 ->
+             r1 <> 0 ->
+             r2 <> 0 ->
+             (P 0%nat / W - e0) / r1 * ((P 0%nat / W - e0) / r1) + (P 1%nat / W - e1) / r2 * ((P 1%nat / W - e1) / r2) =
+             1)).
+Proof. exact @ellipse_axis_aligned. Qed.
+Print Assumptions C13_ellipse_axis_aligned.
+
+Theorem C13_ellipse_flat0_shape :
+  forall (rtol atol r1 r2 e0 e1 e2 : R) (normal : list R) (ca sa cp sp ct st : R) (ty : ctype) (c0 : Obj.obj R),
+         0 <= rtol ->
+         0 <= atol ->
+         length normal = 3%nat ->
+         ca * ca + sa * sa = 1 ->
+         unit_circle (sqrt 2) PI ty = Ok c0 ->
+         allclose rtol atol normal [0; 0; 1] = true ->
+         allclose rtol atol [e0; e1; e2] [0; 0; 0] = true ->
+         exists o : Obj.obj R,
+           ellipse_obj rtol atol (sqrt 2) PI r1 r2 [e0; e1; e2] normal ty ca sa cp sp ct st = Ok o /\
+           Obj.o_bases o = Obj.o_bases c0 /\
+           Obj.o_dim o = 2%nat /\
+           Obj.o_rat o = true /\
+           (forall P : nat -> R,
+            blends ty (Obj.o_cps o) P ->
+            let c := cs2 ca sa in
+            let s := sn2 ca sa in
+            let W := P 2%nat in
+            r2 * r2 * ((c * P 0%nat + s * P 1%nat) * (c * P 0%nat + s * P 1%nat)) +
+            r1 * r1 * ((c * P 1%nat - s * P 0%nat) * (c * P 1%nat - s * P 0%nat)) = r1 * r1 * (r2 * r2) * (W * W)).
+Proof. exact @ellipse_flat0_shape. Qed.
+Print Assumptions C13_ellipse_flat0_shape.
+
+Theorem C13_ellipse_flat_shape :
+  forall rtol atol : R,
+         0 <= rtol ->
+         0 <= atol ->
+         forall (r1 r2 e0 e1 e2 : R) (normal : list R) (ca sa cp sp ct st : R),
+         length normal = 3%nat ->
+         ca * ca + sa * sa = 1 ->
+         forall (ty : ctype) (c0 : Obj.obj R),
+         unit_circle (sqrt 2) PI ty = Ok c0 ->
+         allclose rtol atol normal [0; 0; 1] = true ->
+         allclose rtol atol [e0; e1; e2] [0; 0; 0] = false ->
+         exists o : Obj.obj R,
+           ellipse_obj rtol atol (sqrt 2) PI r1 r2 [e0; e1; e2] normal ty ca sa cp sp ct st = Ok o /\
+           ellipse_spec r1 r2 ty c0 o [cs2 ca sa; sn2 ca sa; 0] [- sn2 ca sa; cs2 ca sa; 0] [0; 0; 1] [e0; e1; e2].
+Proof. exact @ellipse_flat_shape. Qed.
+Print Assumptions C13_ellipse_flat_shape.
+
+Theorem C13_ellipse_tilt_shape :
+  forall rtol atol : R,
+         0 <= rtol ->
+         0 <= atol ->
+         forall (r1 r2 e0 e1 e2 : R) (normal : list R) (ca sa cp sp ct st : R),
+         length normal = 3%nat ->
+         ca * ca + sa * sa = 1 ->
+         cp * cp + sp * sp = 1 ->
+         ct * ct + st * st = 1 ->
+         forall (ty : ctype) (c0 : Obj.obj R),
+         unit_circle (sqrt 2) PI ty = Ok c0 ->
+         allclose rtol atol normal [0; 0; 1] = false ->
+         exists o : Obj.obj R,
+           ellipse_obj rtol atol (sqrt 2) PI r1 r2 [e0; e1; e2] normal ty ca sa cp sp ct st = Ok o /\
+           ellipse_spec r1 r2 ty c0 o (tilt cp sp ct st [cs2 ca sa; sn2 ca sa; 0])
+             (tilt cp sp ct st [- sn2 ca sa; cs2 ca sa; 0]) (nrm cp sp ct st)
+             (if allclose rtol atol [e0; e1; e2] [0; 0; 0] then [0; 0; 0] else [e0; e1; e2]).
+Proof. exact @ellipse_tilt_shape. Qed.
+Print Assumptions C13_ellipse_tilt_shape.
+
+Theorem C13_ngon_default :
+  forall rtol atol : R,
+         0 <= rtol ->
+         0 <= atol ->
+         forall (n : nat) (r : R) (fc fs : R -> R),
+         (3 <= n)%nat ->
+         0 < r ->
+         forall cp sp ct st : R,
+         ngon_obj rtol atol PI fc fs n r [0; 0; 0] [0; 0; 1] cp sp ct st =
+         Ok
+           {|
+             Obj.o_bases := [{| Obj.b_order := 2; Obj.b_knots := ngon_knot n; Obj.b_per1 := 1 |}];
+             Obj.o_cps := ngon_net PI fc fs n r;
+             Obj.o_dim := 2;
+             Obj.o_rat := false
+           |}.
+Proof. exact @ngon_default. Qed.
+Print Assumptions C13_ngon_default.
+
+Theorem C13_ngon_structure :
+  forall (n : nat) (r : R) (fc fs : R -> R),
+         (3 <= n)%nat ->
+         let b := {| Obj.b_order := 2; Obj.b_knots := ngon_knot n; Obj.b_per1 := 1 |} in
+         Obj.b_order b = 2%nat /\
+         Obj.b_per1 b = 1%nat /\
+         Obj.b_nfun b = n /\
+         length (ngon_net PI fc fs n r) = n /\
+         (forall i : nat, (i <= n + 2)%nat -> BasisDef.kn (Obj.b_knots b) i = INR i - 1) /\
+         sorted (BasisDef.kn (Obj.b_knots b)) /\ Obj.b_start b = 0 /\ Obj.b_end b = INR n.
+Proof. exact @ngon_structure. Qed.
+Print Assumptions C13_ngon_structure.
+
+Theorem C13_ngon_vertex_radius :
+  forall (n : nat) (r : R) (fc fs : R -> R),
+         (forall x : R, fc x * fc x + fs x * fs x = 1) ->
+         forall i : nat,
+         (i < n)%nat ->
+         nth 0 (nth i (ngon_net PI fc fs n r) []) 0 * nth 0 (nth i (ngon_net PI fc fs n r) []) 0 +
+         nth 1 (nth i (ngon_net PI fc fs n r) []) 0 * nth 1 (nth i (ngon_net PI fc fs n r) []) 0 = 
+         r * r.
+Proof. exact @ngon_vertex_radius. Qed.
+Print Assumptions C13_ngon_vertex_radius.
+
+Theorem C13_ngon_edges :
+  forall (n : nat) (r : R) (fc fs : R -> R),
+         (3 <= n)%nat ->
+         forall (side : bool) (m : nat) (t : R) (c : nat),
+         (1 <= m <= n)%nat ->
+         in_span side (INR m - 1) (INR m) t ->
+         let k := BasisDef.kn (ngon_knot n) in
+         let V := fun j : nat => nth c (nth (j mod n) (ngon_net PI fc fs n r) []) 0 in
+         let lam := t - (INR m - 1) in
+         sumf (fun j : nat => V j * B side k 1 j t) 0 (S n) = (1 - lam) * V (m - 1)%nat + lam * V m /\ 0 <= lam <= 1.
+Proof. exact @ngon_edges. Qed.
+Print Assumptions C13_ngon_edges.
+
+Theorem C13_ngon_tilt_vertices :
+  forall (rtol atol : R) (n : nat) (r : R) (fc fs : R -> R),
+         (3 <= n)%nat ->
+         0 < r ->
+         (forall x : R, fc x * fc x + fs x * fs x = 1) ->
+         forall (e0 e1 e2 : R) (normal : list R) (cp sp ct st : R),
+         cp * cp + sp * sp = 1 ->
+         ct * ct + st * st = 1 ->
+         length normal = 3%nat ->
+         allclose rtol atol normal [0; 0; 1] = false ->
+         exists o : Obj.obj R,
+           ngon_obj rtol atol PI fc fs n r [e0; e1; e2] normal cp sp ct st = Ok o /\
+           Obj.o_dim o = 3%nat /\
+           Obj.o_rat o = false /\
+           Obj.o_bases o = [{| Obj.b_order := 2; Obj.b_knots := ngon_knot n; Obj.b_per1 := 1 |}] /\
+           length (Obj.o_cps o) = n /\
+           (forall i : nat,
+            (i < n)%nat ->
+            let e := if allclose rtol atol [e0; e1; e2] [0; 0; 0] then [0; 0; 0] else [e0; e1; e2] in
+            let V := nth i (Obj.o_cps o) [] in
+            let d := [nth 0 V 0 - nth 0 e 0; nth 1 V 0 - nth 1 e 0; nth 2 V 0 - nth 2 e 0] in
+            length V = 3%nat /\ dot3 d d = r * r /\ dot3 d (nrm cp sp ct st) = 0).
+Proof. exact @ngon_tilt_vertices. Qed.
+Print Assumptions C13_ngon_tilt_vertices.
+
+Theorem C13_ellipse_tiny_center_refuted :
+  let e0 := 1 / 1000000000 in
+         exists o : Obj.obj R,
+           ellipse_obj np_rtol np_atol (sqrt 2) PI 1 1 [e0; 0; 0] [0; 0; 1] P2C0 1 0 1 0 1 0 = Ok o /\
+           Obj.o_dim o = 2%nat /\
+           (exists x y w : R,
+              nth 0 (Obj.o_cps o) [] = [x; y; w] /\
+              w = 1 /\
+              1 * 1 * ((x - e0 * w) * (x - e0 * w)) + 1 * 1 * ((y - 0 * w) * (y - 0 * w)) <> 1 * 1 * (1 * 1) * (w * w)).
+Proof. exact @ellipse_tiny_center_refuted. Qed.
+Print Assumptions C13_ellipse_tiny_center_refuted.
+
+Theorem C13_ellipse_no_radius_check :
+  (exists o : Obj.obj R, ellipse_obj np_rtol np_atol (sqrt 2) PI 0 3 [0; 0; 0] [0; 0; 1] P2C0 1 0 1 0 1 0 = Ok o) /\
+         circle_obj np_rtol np_atol (sqrt 2) PI 0 [0; 0; 0] [0; 0; 1] P2C0 1 0 1 0 1 0 = Err ValueError.
+Proof. exact @ellipse_no_radius_check. Qed.
+Print Assumptions C13_ellipse_no_radius_check.
 
